@@ -135,6 +135,7 @@ func VerifDir() string {
 
 // New creates the recorder for a property id such as "C01".
 func New(prop string) *Rec {
+	startMemGuard()
 	r := &Rec{
 		Property:     prop,
 		Tier:         Tier(),
